@@ -176,11 +176,15 @@ func run(c *harness.Ctx, i int) {
 		tw := tar.NewWriter(&tb)
 		// the stream has no member for the root (and desync is asked to add one), or its own ("./", as `tar -C dir -cf
 		// x.tar .` writes it) - and desync is sometimes asked to add one all the same
-		rootStyle := []string{"none", "none", "own", "own+add"}[rng.Intn(4)]
+		rootStyle := []string{"none", "none", "own", "own+add", "none-no-add"}[rng.Intn(5)]
 		pfx := ""
-		if rootStyle != "none" {
+		if rootStyle == "own" || rootStyle == "own+add" {
 			pfx = "./"
 			tw.WriteHeader(&tar.Header{Typeflag: tar.TypeDir, Name: "./", Mode: 0755, ModTime: time.Unix(1500000000, 0), Format: tar.FormatPAX})
+		}
+		if rootStyle == "none-no-add" && rng.Intn(2) == 0 {
+			tw.WriteHeader(&tar.Header{Typeflag: tar.TypeReg, Name: "0-first-member", Mode: 0644, Size: 3, ModTime: time.Unix(1500000000, 0), Format: tar.FormatPAX})
+			tw.Write([]byte("abc"))
 		}
 		for _, e := range entries {
 			if e.Path == "." || e.Kind == "fifo" || e.Kind == "sock" || e.Kind == "chr" || e.Kind == "blk" {
@@ -215,6 +219,26 @@ func run(c *harness.Ctx, i int) {
 		}
 		tw.Close()
 		// only entries whose parents made it into the stream
+		if rootStyle == "none-no-add" {
+			// members without a root of any kind and none added (`tar cf - file1 file2 dir`): the first member becomes
+			// the root of the archive; whatever follows cannot be placed. Refusing is fine, leaving members out is not.
+			var nb bytes.Buffer
+			nerr := desync.Tar(context.Background(), &nb, desync.NewTarReader(bytes.NewReader(tb.Bytes()), desync.TarReaderOptions{}))
+			if nerr == nil {
+				ngot, verr := oracle.ValidateCatar(nb.Bytes(), false)
+				if verr != nil {
+					c.Violation("malformed-archive:tar-stream-no-root", "Tar reported success and the archive is malformed: %v", verr)
+					return
+				}
+				if len(ngot) < len(want) {
+					c.Violation("entries-dropped:tar-stream-no-root", "tar stream of %d members without a root member, no root added: Tar reported success and the archive holds %d entries", len(want), len(ngot))
+					return
+				}
+			}
+			c.Count("tar_streams_without_root", 1)
+			c.NonTrivial("tar-stream|no-root|err%v", nerr != nil)
+			return
+		}
 		if err := desync.Tar(context.Background(), &buf, desync.NewTarReader(bytes.NewReader(tb.Bytes()), desync.TarReaderOptions{AddRoot: rootStyle != "own"})); err != nil {
 			if rootStyle == "own+add" {
 				// a root of its own and one added: refusing that is fine
@@ -360,6 +384,37 @@ func run(c *harness.Ctx, i int) {
 		c.NonTrivial("%s|f%s|d%d|s%v|x%v|o%v", source, fb, depth, o.Specials, o.Xattrs, o.OddNames)
 	}
 	c.Sample(map[string]interface{}{"source": source, "entries": len(got), "archive_bytes": buf.Len(), "max_fanout": maxKids, "depth": depth, "specials_in_source": o.Specials})
+	if source == "disk" && i%5 == 2 {
+		// symbolic links that are re-pointed (atomically, to longer targets) while the tree is packed - a "current ->
+		// releases/N" link switched during a backup: each link in the archive carries the old or the new target in full
+		links := map[string][2]string{}
+		had := map[string]map[string]bool{}
+		for _, e := range entries {
+			if e.Kind == "symlink" && len(e.Target) < 200 && len(entries) <= 300 {
+				links[e.Path] = [2]string{e.Target, ""}
+				had[e.Path] = map[string]bool{e.Target: true}
+			}
+		}
+		if len(links) > 0 {
+			rr := &retargetReader{fs: desync.NewLocalFS(root, desync.LocalFSOptions{}), root: root, links: links, had: had}
+			var rb bytes.Buffer
+			if rerr := desync.Tar(context.Background(), &rb, rr); rerr == nil {
+				rgot, verr := oracle.ValidateCatar(rb.Bytes(), true)
+				if verr != nil {
+					c.Violation("malformed-archive:retargeted-links", "symlinks re-pointed while packing: Tar reported success and the archive is malformed: %v", verr)
+					return
+				}
+				for _, g := range rgot {
+					if h, ok := had[g.Path]; ok && !h[g.Target] {
+						c.Violation("entry-target:retargeted", "%q (first %q) was re-pointed %d times while the tree was packed; the archive has %q, which the link never pointed to", g.Path, links[g.Path][0], rr.gen, g.Target)
+						return
+					}
+				}
+			}
+			c.Count("archives_of_retargeted_links", 1)
+			c.NonTrivial("retargeted-links|%d", min(len(links), 4))
+		}
+	}
 	_ = dsu.Tick
 	_ = os.Stat
 }
@@ -379,6 +434,39 @@ func (f *failingWriter) Write(p []byte) (int, error) {
 	}
 	f.n += len(p)
 	return len(p), nil
+}
+
+// retargetReader re-points every symbolic link of the tree before handing out its at-th entry (after giving the walker
+// behind the reader a moment to get ahead of the consumer, as it does).
+type retargetReader struct {
+	fs    desync.FilesystemReader
+	root  string
+	links map[string][2]string
+	gen   int
+	had   map[string]map[string]bool // every target a link ever had
+}
+
+func retarget(old string, gen int) string {
+	return strings.Repeat("g", gen) + fmt.Sprint(gen%10) + "/" + old
+}
+
+func (r *retargetReader) Next() (*desync.File, error) {
+	// the walker behind the reader is one entry ahead of the consumer: the entry handed out next was looked at before
+	// the links change now
+	time.Sleep(200 * time.Microsecond)
+	r.gen++
+	for p, t := range r.links {
+		nt := retarget(t[0], r.gen)
+		tmp := filepath.Join(r.root, p) + ".retarget-tmp"
+		if os.Symlink(nt, tmp) == nil {
+			if os.Rename(tmp, filepath.Join(r.root, p)) != nil {
+				os.Remove(tmp)
+			} else {
+				r.had[p][nt] = true
+			}
+		}
+	}
+	return r.fs.Next()
 }
 
 // unstableReader hands out files whose content is longer or shorter than the size recorded in the entry.
